@@ -92,6 +92,7 @@ package reftable
 //@   ensures[l3:reads-the-second-hash] {C01} ok && valType == 2 && vlen(buf) >= 1 ==> len(r.TargetValue) == hashSize && (forall k int :: 0 <= k && k < hashSize ==> r.TargetValue[k] == old(buf[vlen(buf) + hashSize + k]))
 //@   ensures[l3:accepts-a-symbolic-ref] {C01} valType == 3 && vlen(buf) >= 1 && vlen(buf[vlen(buf):]) >= 1 && len(buf) >= vlen(buf) + vlen(buf[vlen(buf):]) + vval(buf[vlen(buf):]) ==> ok && n == vlen(buf) + vlen(buf[vlen(buf):]) + vval(buf[vlen(buf):])
 //@   ensures[l3:reads-the-target] {C01} ok && valType == 3 && vlen(buf) >= 1 && vlen(buf[vlen(buf):]) >= 1 ==> len(r.Target) == vval(buf[vlen(buf):]) && (forall t int :: 0 <= t && t < len(r.Target) ==> r.Target[t] == old(buf[vlen(buf) + vlen(buf[vlen(buf):]) + t]))
+//@   ensures[l3:accepts-a-deletion] {C01} valType == 0 && vlen(buf) >= 1 && vlen(buf) <= len(buf) ==> ok && n == vlen(buf) && len(r.Value) == 0 && len(r.TargetValue) == 0 && r.Target == ""
 //@   ensures[l3:reads-the-hash] {C01} ok && (valType == 1 || valType == 2) && vlen(buf) >= 1 ==> len(r.Value) == hashSize && (forall k int :: 0 <= k && k < hashSize ==> r.Value[k] == old(buf[vlen(buf) + k]))
 //@   ensures ok ==> 0 < n && n <= len(buf)
 
@@ -204,6 +205,10 @@ package reftable
 //@   props C01
 //@   modifies buf[0:len(buf)], pv, anyof(*RefRecord), anyof([]byte)
 
+//@ func lemmaRefDeletionRoundTrip
+//@   props C01
+//@   modifies buf[0:len(buf)], pv, anyof(*RefRecord), anyof([]byte)
+
 // C01 layer 3 (index records): see verif_lemmas.go
 //@ func lemmaIndexValueRoundTrip
 //@   props C01 C02
@@ -307,6 +312,7 @@ package reftable
 //@   ensures[l3:s3] {C01} fits && r.UpdateIndex < 4611686018427387904 && len(r.Value) == 0 && len(r.TargetValue) == 0 && len(r.Target) > 0 && len(r.Target) < 4611686018427387904 ==> vlen(buf[pvPrev:]) == pvLast && vval(buf[pvPrev:]) == len(r.Target)
 //@   ensures[l3:symref-length] {C01} fits && r.UpdateIndex < 4611686018427387904 && len(r.Value) == 0 && len(r.TargetValue) == 0 && len(r.Target) > 0 && len(r.Target) < 4611686018427387904 ==> vlen(buf[vlen(buf):]) >= 1 && vval(buf[vlen(buf):]) == len(r.Target) && n == vlen(buf) + vlen(buf[vlen(buf):]) + len(r.Target)
 //@   ensures[l3:symref-target-follows] {C01} fits && r.UpdateIndex < 4611686018427387904 && len(r.Value) == 0 && len(r.TargetValue) == 0 && len(r.Target) > 0 && len(r.Target) < 4611686018427387904 ==> (forall t int :: 0 <= t && t < len(r.Target) ==> buf[vlen(buf) + vlen(buf[vlen(buf):]) + t] == r.Target[t])
+//@   ensures[l3:a-deletion-carries-no-value-bytes] {C01} fits && r.UpdateIndex < 4611686018427387904 && len(r.Value) == 0 && len(r.TargetValue) == 0 && len(r.Target) == 0 ==> n == vlen(buf)
 //@   ensures[l3:the-hash-follows] {C01} fits && r.UpdateIndex < 4611686018427387904 && len(r.Value) > 0 && len(r.Target) == 0 && ref(r.Value) != ref(buf) ==> (forall k int :: vlen(buf) <= k && k < vlen(buf) + len(r.Value) ==> buf[k] == r.Value[k - vlen(buf)])
 
 //@ func (*indexRecord).encode
